@@ -75,8 +75,7 @@ def centre_of_gravity(img, threshold=0, min_threshold=0, **kwargs):
         else:
             thres = numpy.maximum(threshold*img.max(-1).max(-1), [min_threshold]*img.shape[0])
             img_temp = (img.T - thres).T
-            zero_coords = numpy.where(img_temp < 0)
-            img[zero_coords] = 0
+            img = numpy.where(img_temp < 0, 0, img)
 
     if len(img.shape) == 2:
         y_cent, x_cent = numpy.indices(img.shape)
